@@ -783,4 +783,182 @@ func emitServerAuthn(e *emitter, p *pkg) {
 		})
 	}
 	e.str("saSessionRecords", rec)
+
+	// ---- WHEN the server stores a session, relative to the checks of the full handshake
+	emitStorePoint(e, p)
+}
+
+// saCountCalls counts the calls of a function / method named name below n.
+func saCountCalls(n ast.Node, name string) int {
+	cnt := 0
+	ast.Inspect(n, func(x ast.Node) bool {
+		if call, ok := x.(*ast.CallExpr); ok {
+			switch f := call.Fun.(type) {
+			case *ast.SelectorExpr:
+				if f.Sel.Name == name {
+					cnt++
+				}
+			case *ast.Ident:
+				if f.Name == name {
+					cnt++
+				}
+			}
+		}
+		return true
+	})
+	return cnt
+}
+
+// saHsCalls lists the `hs.X(…)` method calls below n in source order.
+func saHsCalls(n ast.Node) []string {
+	var out []string
+	ast.Inspect(n, func(x ast.Node) bool {
+		if ce, ok := x.(*ast.CallExpr); ok {
+			if se, ok := ce.Fun.(*ast.SelectorExpr); ok {
+				if id, ok := se.X.(*ast.Ident); ok && id.Name == "hs" {
+					out = append(out, se.Sel.Name)
+				}
+			}
+		}
+		return true
+	})
+	return out
+}
+
+// saIsPlainCall: the statement is exactly `hs.<name>()`.
+func saIsPlainCall(p *pkg, st ast.Stmt, name string) bool {
+	es, ok := st.(*ast.ExprStmt)
+	return ok && p.src(es.X) == "hs."+name+"()"
+}
+
+// saGuardsBefore describes the statements in front of index idx of a statement list: every
+// `if err = hs.X(…); err != nil { …; return <error> }` (or `err :=`) gives "X:checked", any other
+// statement that calls a method of hs gives "X:unchecked" per call.
+func saGuardsBefore(p *pkg, stmts []ast.Stmt, idx int) []string {
+	var out []string
+	for _, st := range stmts[:idx] {
+		if is, ok := st.(*ast.IfStmt); ok && is.Init != nil && is.Else == nil && p.src(is.Cond) == "err != nil" && saReturnsError(p, is.Body) {
+			if as, ok := is.Init.(*ast.AssignStmt); ok && len(as.Rhs) == 1 && len(as.Lhs) >= 1 && p.src(as.Lhs[len(as.Lhs)-1]) == "err" {
+				if cs := saHsCalls(as.Rhs[0]); len(cs) == 1 && len(saHsCalls(is.Body)) == 0 {
+					out = append(out, cs[0]+":checked")
+					continue
+				}
+			}
+		}
+		for _, c := range saHsCalls(st) {
+			out = append(out, c+":unchecked")
+		}
+	}
+	return out
+}
+
+// emitStorePoint: the server's session cache is written by createSessionState only; where is it
+// called, and which steps of the full handshake have succeeded by then?
+//
+//	saStoreSites      the functions that call createSessionState (one entry per call)
+//	saStoreAt         "afterFinished":   an unconditional statement of the full-handshake branch of
+//	                                     handshake(), after `readFinished` returned nil
+//	                  "afterCertVerify": … after `doFullHandshake` returned nil (before readFinished), or
+//	                                     in doFullHandshake after the CertificateVerify block
+//	                  "afterKx":         in doFullHandshake, after hs.masterSecret is assigned and
+//	                                     before the CertificateVerify block
+//	                  "?":               anything else
+//	saStoreGuards     the hs.* calls in front of it in that statement list, ":checked" when an error
+//	                  of the call returns from the function before anything else happens
+//	saServerPutSites  the functions outside the client's handshake that write a SessionCache
+//	saServerPutNil    how many of those writes store a nil (= remove an entry)
+func emitStorePoint(e *emitter, p *pkg) {
+	var names []string
+	for name := range p.funcs {
+		names = append(names, name)
+	}
+	sort.Strings(names)
+	var sites, putSites []string
+	putNil := int64(0)
+	for _, name := range names {
+		fd := p.funcs[name]
+		if fd.Body == nil {
+			continue
+		}
+		if name != "serverHandshakeState.createSessionState" {
+			for i := 0; i < saCountCalls(fd.Body, "createSessionState"); i++ {
+				sites = append(sites, name)
+			}
+		}
+		if !strings.Contains(strings.ToLower(name), "client") {
+			_, vals := putCalls(p, fd.Body)
+			for _, v := range vals {
+				putSites = append(putSites, name)
+				if v == "nil" {
+					putNil++
+				}
+			}
+		}
+	}
+	storeAt := "?"
+	var guards []string
+	if len(sites) == 1 {
+		switch sites[0] {
+		case "serverHandshakeState.handshake":
+			for _, st := range body(p, "serverHandshakeState.handshake") {
+				is, ok := st.(*ast.IfStmt)
+				if !ok || p.src(is.Cond) != "hs.checkForResumption()" {
+					continue
+				}
+				eb, ok := is.Else.(*ast.BlockStmt)
+				if !ok || saCountCalls(is.Body, "createSessionState") != 0 {
+					continue
+				}
+				for i, b := range eb.List {
+					if !saIsPlainCall(p, b, "createSessionState") {
+						continue
+					}
+					guards = saGuardsBefore(p, eb.List, i)
+					has := func(g string) bool {
+						for _, x := range guards {
+							if x == g {
+								return true
+							}
+						}
+						return false
+					}
+					switch {
+					case has("doFullHandshake:checked") && has("readFinished:checked"):
+						storeAt = "afterFinished"
+					case has("doFullHandshake:checked") && !has("readFinished:unchecked"):
+						storeAt = "afterCertVerify"
+					}
+				}
+			}
+		case "serverHandshakeState.doFullHandshake":
+			stmts := body(p, "serverHandshakeState.doFullHandshake")
+			at, master, cv := -1, -1, -1
+			for i, b := range stmts {
+				if saIsPlainCall(p, b, "createSessionState") {
+					at = i
+				}
+				if as, ok := b.(*ast.AssignStmt); ok && len(as.Lhs) == 1 && p.src(as.Lhs[0]) == "hs.masterSecret" {
+					master = i
+				}
+				if is, ok := b.(*ast.IfStmt); ok && saContainsCall(p, is.Body, "verifyHandshakeSignature") {
+					cv = i
+				}
+			}
+			if at >= 0 {
+				guards = saGuardsBefore(p, stmts, at)
+			}
+			switch {
+			case at >= 0 && master >= 0 && cv >= 0 && at > master && at < cv:
+				storeAt = "afterKx"
+			case at >= 0 && cv >= 0 && at > cv:
+				storeAt = "afterCertVerify"
+			}
+		}
+	}
+	e.comment("createSessionState is called from <saStoreSites>, at <saStoreAt>, after <saStoreGuards>; server-side SessionCache writers <saServerPutSites>")
+	e.strList("saStoreSites", sites)
+	e.str("saStoreAt", storeAt)
+	e.strList("saStoreGuards", guards)
+	e.strList("saServerPutSites", putSites)
+	e.nat("saServerPutNil", putNil, true)
 }
